@@ -4,3 +4,4 @@ from checks import e3check
 QUICK = ['ref_user_user_R4', 'ref_user_ruser_R3', 'wn_cv_sigafter_R2']
 THOROUGH = ['wn_ctr_dec_R3', 'wn_cv_bcastafter_R2', 'ref_user_user_R5', 'ref_user_ruser_R4', 'ref_user_user_user_R3', 'wn_cvctr_signaller_R3', 'wn_cvctr_bcastafter_R3', 'wn_cvctr_dec_R3']
 scenarios, jobs, confirm, info = e3check.make('C13', QUICK, THOROUGH, 'harness/e3/refcount.c: lock; last = (--refs == 0); unlock; if (last) free(object holding the mutex). The memory model keeps a liveness bit per heap/stack object and every access (also by a thread still inside nsync_mu_unlock) asserts it. nsync_wait_n scenarios: the on-stack waiter records die when the call returns.', ['nsync_mu_unlock', 'nsync_mu_unlock_slow_', 'nsync_mu_lock', 'nsync_wait_n', 'note_notify_child', 'nsync_counter_add', 'wake_waiters'], ['cancellable waits'])
+WORKERS = 5     # each query needs 2-10 GB (cbmc + kissat): bounded parallelism keeps the machine out of swap / the OOM killer
